@@ -60,8 +60,11 @@ _EXPIRED_OBJECT = _ExpiredObject()
 
 
 class _EvaluatorCompiler:
-    def __init__(self, target_cls=None):
+    def __init__(self, target_cls=None, params=None):
         self.target_cls = target_cls
+        # parameters passed at execution time, which take precedence over
+        # the value a BindParameter was constructed with
+        self.params = params
 
     def process(self, clause, *clauses):
         if clauses:
@@ -439,7 +442,9 @@ class _EvaluatorCompiler:
         )
 
     def visit_bindparam(self, clause):
-        if clause.callable:
+        if self.params is not None and clause.key in self.params:
+            val = self.params[clause.key]
+        elif clause.callable:
             val = clause.callable()
         else:
             val = clause.value
